@@ -188,17 +188,40 @@ def offset_rules(repo, fi):
     a = repo.func(F + "._all_pwm_to_mapping")
     f = repo.func(F + ".fimo")
     k = repo.func(F + "._fast_hits")
+    from ..terms import TermEval, canon
+    from ..front import parent_map
+
+    def coeff_signs(rat, needle):
+        """signs of the coefficients of the monomials of a polynomial that contain an atom mentioning `needle`"""
+        if rat is None or not rat.is_poly():
+            return None
+        sg = set()
+        for m, c in rat.n.items():
+            if any(needle in k_ for k_, _ in m):
+                sg.add(1 if c > 0 else -1)
+        return sg
     ta = [unparse(s) for s in walk_no_nested(a.node) if isinstance(s, ast.Assign)]
-    tf = [unparse(s) for s in walk_no_nested(f.node) if isinstance(s, ast.Assign)]
-    tk = [unparse(s) for s in walk_no_nested(k.node) if isinstance(s, ast.Assign)]
-    ok = "smallest, logpdf = _pwm_to_mapping(motifs[:, s:e], bin_size)" in ta and "smallests[i] = smallest" in ta and \
-        "_score_thresholds[i] = (idx[0] + _smallest[i]) * bin_size" in tf and "score_idx = int(score / bin_size) - smallest[k]" in tk
-    if ok:
-        out.append(holds("OFFSET", f, role, "(idx[0] + _smallest[i]) * bin_size ; int(score / bin_size) - smallest[k]", f.node))
-    elif any("(idx[0] - _smallest[i])" in t for t in tf) or any("int(score / bin_size) + smallest[k]" in t for t in tk):
-        out.append(violation("OFFSET", f, role, "offset is applied with the wrong sign", f.node))
+    okp = any(t.startswith("smallest, logpdf = _pwm_to_mapping(") for t in ta) and "smallests[i] = smallest" in ta
+    # threshold: (first bin + offset) * bin_size   -> coefficient of the offset atom positive
+    th = [s for s in walk_no_nested(f.node) if isinstance(s, ast.Assign) and isinstance(s.targets[0], ast.Subscript)
+          and unparse(s.targets[0].value) == "_score_thresholds" and "_smallest" in unparse(s.value)]
+    sg_t = coeff_signs(TermEval().ev(th[0].value), "_smallest)") if len(th) == 1 else None
+    # lookup: int(score / bin) - offset (+ table start) -> coefficient negative; evaluated over the block that appends the hit
+    pm_k = parent_map(k.node)
+    si = [s for s in walk_no_nested(k.node) if isinstance(s, (ast.Assign, ast.AugAssign)) and
+          unparse(s.target if isinstance(s, ast.AugAssign) else s.targets[0]) == "score_idx"]
+    sg_k = None
+    if si:
+        blk = pm_k.get(si[0])
+        te = TermEval()
+        te.run([x for x in getattr(blk, "body", []) if isinstance(x, (ast.Assign, ast.AugAssign))])
+        sg_k = coeff_signs(te.env.get("score_idx"), "*smallest)")
+    if okp and sg_t == {1} and sg_k == {-1}:
+        out.append(holds("OFFSET", f, role, "threshold: +offset (%s); lookup: -offset (%s)" % (unparse(th[0].value), "; ".join(unparse(x) for x in si)), f.node))
+    elif okp and sg_t is not None and sg_k is not None and sg_t and sg_k and (sg_t != {1} or sg_k != {-1}):
+        out.append(violation("OFFSET", f, role, "offset is applied with the wrong sign (threshold %s, lookup %s)" % (sorted(sg_t), sorted(sg_k)), th[0] if sg_t != {1} else si[0]))
     else:
-        out.append(unrecognised("OFFSET", f, role, "consumer statements differ from the confirmed form"))
+        out.append(unrecognised("OFFSET", f, role, "consumer statements not recognised (producer=%s threshold=%s lookup=%s)" % (okp, sg_t, sg_k)))
     return out
 
 
